@@ -4,8 +4,11 @@ MPT-based mode, run over the node table of the source trie.
   cfg <P> <B0> <rootId> <n>          -> ok
   node <id> <L|N> <child>:<nibbles-hex> …  -> ok            (children in traversal order)
   init | remod | restart             -> ok|panic stage=… pool=…
-  headers <a> <b>                    -> ok|err stage=… pool=…
-  deliver <id|f|x> …                 -> ok|err stage=… pool=…
+  headers <a> <b> [t<k>]             -> ok|err stage=… pool=…   (t<k>: the header of index k is tampered)
+  fakeblock <i>                      -> ok|err[ bh=<n>] stage=… pool=…   (block i under a header that is not the chain's)
+  deliver <id|f|x|hn<id>|e|i<id>.<rel>> …  -> ok|err|panic stage=… pool=…
+  deliver+ …                         -> ok|err|panic rc=<counters> ts=<n>/<sum> stage=… pool=…
+  bnew | bput <nibbles|-> <id|f|hn<id>|e> | btrav <0|1> | bdump    (direct tie of the billet model to mpt.Billet)
   block <i>                          -> ok|err[ bh=<n>] stage=… pool=…
   badblock <i> <n> <id|f<k>> …      -> ok|err[ bh=<n>] stage=… pool=…   (genuine header of a block with n txs, another tx list)
   final                              -> synced
@@ -14,9 +17,11 @@ pool = <count>/<checksum of the sorted ids> while the module asks for MPT data, 
 import NeoModel.Base.Proto
 import NeoModel.Base.Hex
 import NeoModel.Model.StateSync
+import NeoModel.Model.Billet
+import NeoModel.Model.SyncStage
 open NeoModel NeoModel.StateSync
 
-inductive Stage | none | headers | mpt | blocks | inactive | broken
+inductive DStage | none | headers | mpt | blocks | inactive | broken
 deriving DecidableEq
 
 structure DS where
@@ -24,11 +29,15 @@ structure DS where
   p : Nat := 0
   b0 : Nat := 0
   root : Nat := 0
-  stage : Stage := .none
+  stage : DStage := .none
+  -- MPT-based mode: the stage machine of Model/SyncStage.lean
+  ss : SS := SS.init { p := 0, b0 := 0, root := 0, db := fun _ => none, fuel := 0, ntx := fun _ => 0 }
   hh : Nat := 0
   bh : Nat := 0
   storedBh : Nat := 0
-  ms : MS := MS.init 0
+  bs : BS := BS.init 0
+  -- the billet of the direct tie (its own store)
+  bil : BS := BS.init 0
   -- storage-items mode (ContractStorageBased): ids of the items whose current stored value is right / wrong
   smode : Bool := false
   nkv : Nat := 0
@@ -36,10 +45,14 @@ structure DS where
   bad : List Nat := []
   lsk : Option Nat := none
 
+def DS.ms (d : DS) : MS := d.bs.ms
 def DS.db (d : DS) : Hash → Option SNode := fun h => (d.table.getD h none)
 def DS.fuel (d : DS) : Nat := d.table.size + 2
 
-def showStage : Stage → String
+def DS.cfg (d : DS) (n : Nat) : SCfg :=
+  { p := d.p, b0 := d.b0, root := d.root, db := fun h => (d.table.getD h none), fuel := d.table.size + 2, ntx := fun _ => n }
+
+def showStage : DStage → String
   | .headers => "headers"
   | .mpt => "mpt"
   | .blocks => "blocks"
@@ -57,11 +70,34 @@ def showPool (d : DS) : String :=
     let sum := ids.foldl (fun s i => (s * 31 + i + 1) % 1000000007) 0
     s!"{ids.length}/{sum}"
 
+def showSStage : Stage → String
+  | .headers => "headers"
+  | .mpt => "mpt"
+  | .blocks => "blocks"
+  | .inactive => "inactive"
+
+def showPoolOf (p : Pool) : String :=
+  let ids := (poolHashes p).foldl (fun acc x => insertSorted x acc) []
+  let sum := ids.foldl (fun s i => (s * 31 + i + 1) % 1000000007) 0
+  s!"{ids.length}/{sum}"
+
+/-- observation for the MPT-based mode -/
+def obsS (res : String) (s : SS) : String :=
+  let pool := if s.stage == .mpt then showPoolOf s.bs.ms.pool else "-"
+  s!"{res} stage={showSStage s.stage} pool={pool}"
+
+def showSRes : SRes → String
+  | .ok => "ok"
+  | .err => "err"
+  | .panic => "panic"
+
 def obs (res : String) (d : DS) : String :=
   let base := s!"stage={showStage d.stage} pool={showPool d}"
   if res.isEmpty then base else res ++ " " ++ base
 
 /-- defineSyncStage (module.go:309-411) for the MPT-based mode. `none` = panic. -/
+def samePool (a b : Pool) : Bool := a.all (fun x => b.contains x) && b.all (fun x => a.contains x)
+
 def kvComplete (d : DS) : Bool :=
   d.bad.isEmpty && (List.range d.nkv).all (fun i => d.good.contains i)
 
@@ -69,26 +105,28 @@ def afterState (d : DS) : DS :=
   let bh := max d.b0 d.storedBh
   if bh ≥ d.p then { d with stage := .inactive, bh := bh } else { d with stage := .blocks, bh := bh }
 
-def defineStage (d : DS) : Option DS :=
+def defineStageD (d : DS) : Option DS :=
   if d.smode then
     if d.hh > d.p then
       -- checkpoint: IntermediateRoot == Root iff the stored items are exactly the state
       if d.lsk.isSome && kvComplete d then some (afterState d) else some { d with stage := .mpt }
     else some { d with stage := .headers }
   else if d.hh > d.p then
-    match some (rebuild d.db d.fuel d.root d.ms) with
-    | none => none
-    | some ms =>
-      if ms.pool.isEmpty then
+    match rebuildB d.db d.fuel d.root d.bs with
+    | some (bs, .ok ()) =>
+      -- the billet-level traversal must leave the pool of the pool-level model (Proofs/BilletRebuild)
+      if !samePool bs.ms.pool (rebuild d.db d.fuel d.root d.bs.ms).pool then none
+      else if bs.ms.pool.isEmpty then
         let bh := max d.b0 d.storedBh
-        if bh ≥ d.p then some { d with ms := ms, stage := .inactive, bh := bh }
-        else some { d with ms := ms, stage := .blocks, bh := bh }
-      else some { d with ms := ms, stage := .mpt }
+        if bh ≥ d.p then some { d with bs := bs, stage := .inactive, bh := bh }
+        else some { d with bs := bs, stage := .blocks, bh := bh }
+      else some { d with bs := bs, stage := .mpt }
+    | _ => none
   else some { d with stage := .headers }
 
 /-- What the module object looks like after the panic inside defineSyncStage: headers are in sync, the
 module's own pool is still empty. -/
-def broken (d : DS) : DS := { d with stage := .mpt, ms := { d.ms with pool := [] } }
+def broken (d : DS) : DS := { d with stage := .mpt, bs := { d.bs with ms := { d.bs.ms with pool := [] } } }
 
 def parseKid (w : String) : Option (Path × Hash) :=
   match w.splitOn ":" with
@@ -98,25 +136,159 @@ def parseKid (w : String) : Option (Path × Hash) :=
     | _, _ => none
   | _ => none
 
-def parseItems (d : DS) : List String → List Item
-  | [] => []
-  | "x" :: r => .garbage :: parseItems d r
-  | "f" :: r => .node 1000000000 { val := some 0, kids := [] } :: parseItems d r
-  | w :: r =>
+def foreignLeaf : SNode := { val := some 0, kids := [] }
+
+def parseRel (w : String) : Option Path := (Hex.decode w).map (fun bs => bs.map (·.toNat))
+
+def parseItem (d : DS) (w : String) : BItem :=
+  if w == "x" then .garbage
+  else if w == "e" then .empty
+  else if w == "f" then .node 1000000000 foreignLeaf
+  else if w.startsWith "hn" then
+    match (w.drop 2).toNat? with
+    | some i => .hashNode i
+    | none => .garbage
+  else if w.startsWith "i" then .nonCanonical   -- a node with one child serialised in place (refused, 09bd334)
+  else
     match w.toNat? with
     | some i =>
       match d.db i with
-      | some n => .node i n :: parseItems d r
-      | none => .garbage :: parseItems d r
-    | none => .garbage :: parseItems d r
+      | some n => .node i n
+      | none => .garbage
+    | none => .garbage
+
+/-- the pool-level reading of an item (Model/StateSync.lean) -/
+def toItem : BItem → Item
+  | .node h n => .node h n
+  | _ => .garbage
+
+def showRes : BRes Unit → String
+  | .ok _ => "ok"
+  | .err _ => "err"
+  | .panic => "panic"
+
+def showCls : BRes Unit → String
+  | .ok _ => "ok"
+  | .err .intoHashNode => "err:intoHashNode"
+  | .err .intoEmptyNode => "err:intoEmptyNode"
+  | .err .modifyEmpty => "err:modifyEmpty"
+  | .err .badHash => "err:badHash"
+  | .err .modifyExt => "err:modifyExt"
+  | .err .collapsed => "err:collapsed"
+  | .err .notFound => "err:notFound"
+  | .panic => "panic"
+
+def rcSum (d : DS) (refs : Hash → Nat) : Nat :=
+  (List.range d.table.size).foldl (fun s i => (s * 31 + (i + 1) * refs i) % 1000000007) 0
+
+/-- fromNibbles (helpers.go:63-69): pairs of nibbles, an odd last one is dropped -/
+def fromNibbles : Path → List Nat
+  | a :: b :: r => (a * 16 + b) :: fromNibbles r
+  | _ => []
+
+def keySum (p : Path) : Nat := (fromNibbles p).foldl (fun x b => (x * 131 + b + 1) % 1000000007) 0
+
+/-- the temporary storage is a map: the last value stored under a key stays -/
+def tsSum (temp : List (Path × Nat)) : String :=
+  let rec dedup : List (Path × Nat) → List (Path × Nat)
+    | [] => []
+    | e :: r => if r.any (fun x => fromNibbles x.1 == fromNibbles e.1) then dedup r else e :: dedup r
+  let items := dedup temp
+  -- the value of a leaf is its id; a foreign leaf is not a node of the trie (id -1 on the Go side)
+  let sum := items.foldl (fun s e => (s + keySum e.1 * 31 + e.2 + 1) % 1000000007) 0
+  s!"{items.length}/{sum}"
+
+def parseNibbles (w : String) : Option Path :=
+  if w == "-" then some []
+  else w.toList.mapM (fun c =>
+    if c.isDigit then some (c.toNat - '0'.toNat)
+    else if 'a' ≤ c ∧ c ≤ 'f' then some (c.toNat - 'a'.toNat + 10)
+    else none)
+
+def travProc (st : Nat × Nat) (path : Path) (h : Hash) (_ : SNode) : Nat × Nat :=
+  let s1 := (st.2 * 31 + h + 1) % 1000000007
+  (st.1 + 1, (fromNibbles path).foldl (fun s x => (s * 31 + x + 1) % 1000000007) s1)
+
+/-- The hypothesis `Shaped` of the billet theorems (Proofs/BilletBasic.lean), checked on the node table of the
+case's source trie: leaves have no children, other nodes have some, the children of a branch sit under pairwise
+different relative paths of length ≤ 1 and its value child is a leaf. -/
+def shapedB (d : DS) : Bool :=
+  (List.range d.table.size).all fun h =>
+    match d.db h with
+    | none => true
+    | some n =>
+      (if n.val.isSome then n.kids.isEmpty else !n.kids.isEmpty) &&
+      (kindOf n != .branch ||
+        ((n.kids.map (·.1)).eraseDups.length == n.kids.length &&
+         n.kids.all (fun k => k.1.length ≤ 1 &&
+           (!k.1.isEmpty || match d.db k.2 with | some m => m.kids.isEmpty | none => true))))
+
+/-- MPT-based mode: every module call is one step of the stage machine of Model/SyncStage.lean. -/
+def stepS (d : DS) (ws : List String) : Option (DS × String) :=
+  let withBh (r : SRes) (s : SS) : String :=
+    if s.stage == .blocks then s!"{showSRes r} bh={s.bh}" else showSRes r
+  let blockMsg (i : Nat) (n : Nat) (genuine : Bool) (body : List Nat) : DS × String :=
+    let (s', r) := d.ss.step (d.cfg n) (.block i genuine body)
+    ({ d with ss := s' }, obsS (withBh r s') s')
+  match ws with
+  | ["init"] | ["remod"] | ["restart"] =>
+    if !shapedB d then some (d, "bad-shape") else
+    let (s', r) := d.ss.step (d.cfg 0) .init
+    -- the billet-level traversal must leave the pool of the pool-level model (Proofs/BilletRebuild)
+    if s'.stage == .mpt && !samePool s'.bs.ms.pool (rebuild d.db d.fuel d.root d.ss.bs.ms).pool then
+      some ({ d with ss := s' }, "refinement-broken")
+    else some ({ d with ss := s' }, obsS (showSRes r) s')
+  | "headers" :: a :: b :: rest =>
+    match a.toNat?, b.toNat? with
+    | some a, some b =>
+      let bad : Option Nat := match rest with
+        | [t] => (t.drop 1).toNat?
+        | _ => none
+      let hs : List Hdr := (List.range (b + 1 - a)).map (fun j => { idx := a + j, genuine := some (a + j) != bad })
+      let (s', r) := d.ss.step (d.cfg 0) (.headers hs)
+      some ({ d with ss := s' }, obsS (showSRes r) s')
+    | _, _ => some (d, "bad-op")
+  | "deliver" :: items | "deliver+" :: items =>
+    let observe := ws.head? == some "deliver+"
+    let its := items.map (parseItem d)
+    let (s', r) := d.ss.step (d.cfg 0) (.nodes its)
+    -- refinement (Proofs/BilletRefine): without an error the billet-level module does what the pool-level one does
+    let (ms, _) := deliver d.db d.fuel d.ss.bs.ms (its.map toItem)
+    let plain := its.all (fun it => match it with | .node _ _ => true | .garbage => true | _ => false)
+    let agree := d.ss.stage != .mpt || r != .ok || !plain ||
+      (samePool s'.bs.ms.pool ms.pool && s'.bs.ms.done == ms.done && rcSum d s'.bs.ms.refs == rcSum d ms.refs)
+    let extra := if observe && d.ss.stage == .mpt then s!" rc={rcSum d s'.bs.ms.refs} ts={tsSum s'.bs.ms.temp}" else ""
+    if !agree then some ({ d with ss := s' }, "refinement-broken")
+    else some ({ d with ss := s' }, obsS (showSRes r ++ extra) s')
+  | ["block", i] =>
+    match i.toNat? with
+    | some i => some (blockMsg i 0 true [])
+    | none => some (d, "bad-op")
+  | ["fakeblock", i] =>
+    match i.toNat? with
+    | some i => some (blockMsg i 0 false [])
+    | none => some (d, "bad-op")
+  | "badblock" :: i :: n :: body =>
+    match i.toNat?, n.toNat? with
+    | some i, some n =>
+      let ids := body.map (fun w => match w.toNat? with
+        | some k => k
+        | none => 1000 + ((w.drop 1).toNat?.getD 0))
+      some (blockMsg i n true ids)
+    | _, _ => some (d, "bad-op")
+  | _ => none
 
 def step (d : DS) (ws : List String) : DS × String :=
+  match (if d.smode then none else stepS d ws) with
+  | some r => r
+  | none =>
   match ws with
   | ["case", k] => ({}, s!"case {k}")
   | ["cfg", p, b0, root, n] =>
     match p.toNat?, b0.toNat?, root.toNat?, n.toNat? with
     | some p, some b0, some root, some n =>
-      ({ d with p := p, b0 := b0, root := root, table := Array.replicate n none, ms := MS.init root }, "ok")
+      let d1 := { d with p := p, b0 := b0, root := root, table := Array.replicate n none, bs := BS.init root, bil := BS.init root }
+      ({ d1 with ss := SS.init (d1.cfg 0) }, "ok")
     | _, _, _, _ => (d, "bad-op")
   | "node" :: id :: kind :: kids =>
     match id.toNat? with
@@ -125,39 +297,66 @@ def step (d : DS) (ws : List String) : DS × String :=
       if ks.length != kids.length then (d, "bad-op")
       else
         let n : SNode := { val := if kind == "L" then some id else none, kids := ks }
-        ({ d with table := d.table.setIfInBounds id (some n) }, "ok")
+        -- the kind the model derives from the shape must be the kind of the real node
+        let derived := if kind == "L" then "L" else if kindOf n == .ext then "E" else "B"
+        if derived != kind || (kind == "L" && !ks.isEmpty) then (d, "bad-kind")
+        else ({ d with table := d.table.setIfInBounds id (some n) }, "ok")
     | none => (d, "bad-op")
   | ["init"] =>
-    match defineStage d with
+    match defineStageD d with
     | some d' => (d', obs "ok" d')
     | none => (broken d, obs "panic" (broken d))
   | ["remod"] | ["restart"] =>
-    match defineStage d with
+    match defineStageD d with
     | some d' => (d', obs "ok" d')
     | none => (broken d, obs "panic" (broken d))
-  | ["headers", a, b] =>
+  | "headers" :: a :: b :: rest =>
     match a.toNat?, b.toNat? with
     | some a, some b =>
+      let bad : Option Nat := match rest with
+        | [t] => (t.drop 1).toNat?
+        | _ => none
+      let hs : List Hdr := (List.range (b + 1 - a)).map (fun j => { idx := a + j, genuine := some (a + j) != bad })
       if d.stage != .headers then (d, obs "err" d)
-      else
-        let a' := max a (d.hh + 1)
-        if a' > b then (d, obs "ok" d)
-        else if a ≤ d.hh + 1 then
-          let d1 := { d with hh := b }
-          match defineStage d1 with
-          | some d' => (d', obs "ok" d')
-          | none => (broken d1, obs "panic" (broken d1))
-        else (d, obs "err" d)
+      else match addHeaders d.hh hs with
+        | none => (d, obs "err" d)
+        | some hh' =>
+          if hh' == d.hh then (d, obs "ok" d)
+          else
+            let d1 := { d with hh := hh' }
+            match defineStageD d1 with
+            | some d' => (d', obs "ok" d')
+            | none => (broken d1, obs "panic" (broken d1))
     | _, _ => (d, "bad-op")
-  | "deliver" :: items =>
-    if d.stage != .mpt then (d, obs "err" d)
-    else
-      let (ms, ok) := deliver d.db d.fuel d.ms (parseItems d items)
-      if !ok then ({ d with ms := ms }, obs "err" { d with ms := ms })
-      else if ms.pool.isEmpty then
-        let d' := { d with ms := ms, stage := .blocks, bh := max d.b0 d.storedBh }
-        (d', obs "ok" d')
-      else ({ d with ms := ms }, obs "ok" { d with ms := ms })
+  | ["fakeblock", i] =>
+    match i.toNat? with
+    | some _ =>
+      if d.stage != .blocks then (d, obs "ok" d)
+      else if d.bh == d.p then (d, obs "ok" d)
+      else (d, obs s!"err bh={d.bh}" d)
+    | none => (d, "bad-op")
+  | ["bnew"] =>
+    if !shapedB d then (d, "bad-shape")
+    else ({ d with bil := { d.bil with billet := .hash d.root false } }, "ok")
+  | ["bput", pw, tok] =>
+    match parseNibbles pw with
+    | some path =>
+      let it := parseItem d tok
+      let rcOf (s : BS) : Nat := match it with
+        | .node h _ => if tok == "f" then 0 else s.ms.refs h
+        | .hashNode h => s.ms.refs h
+        | _ => 0
+      match restoreHashNodeItem d.bil path it with
+      | .ok s' => ({ d with bil := s' }, s!"ok rc={rcOf s'}")
+      | .err e => (d, s!"{showCls (.err e)} rc={rcOf d.bil}")
+      | .panic => (d, s!"panic rc={rcOf d.bil}")
+    | none => (d, "bad-op")
+  | ["btrav", ign] =>
+    match traverseB d.db d.bil.ms.refs (ign == "1") travProc (d.fuel + 2) ((0, 0) : Nat × Nat) d.bil.billet [] with
+    | some (st, b, .ok ()) => ({ d with bil := { d.bil with billet := b } }, s!"ok n={st.1} sum={st.2}")
+    | some (_, b, res) => ({ d with bil := { d.bil with billet := b } }, showCls res)
+    | none => (d, "out-of-fuel")
+  | ["bdump"] => (d, s!"rc={rcSum d d.bil.ms.refs} ts={tsSum d.bil.ms.temp}")
   | ["block", i] =>
     match i.toNat? with
     | some i =>
